@@ -324,3 +324,9 @@ package wire
 //@   ensures imp(old(has(c.downstreams.ackCompletes, alias)), result1 != nil && c.downstreams.ackCompletes[alias] == old(c.downstreams.ackCompletes[alias]))
 //@   ensures imp(!old(has(c.downstreams.ackCompletes, alias)), result1 == nil && fresh(result0) && has(c.downstreams.ackCompletes, alias) && c.downstreams.ackCompletes[alias] == result0)
 //@   ensures forall(a, uint32, imp(a != alias, has(c.downstreams.ackCompletes, a) == old(has(c.downstreams.ackCompletes, a)) && c.downstreams.ackCompletes[a] == old(c.downstreams.ackCompletes[a])))
+
+// ---------------------------------------------------------------- C15: keepalive defaults (checked against the declarations)
+//@ initial[C15] defaultPingInterval == 10 * time.Second
+//@ initial[C15] defaultPingTimeout == time.Second
+//@ initial[C15] defaultPingIntervalForServer == 10 * time.Second
+//@ initial[C15] defaultPingTimeoutForServer == time.Second
